@@ -1,4 +1,106 @@
-import Chain33Model.Model.C11
+import Chain33Model.Proofs.C12
+/-!
+C12 — transactions can only write where their executor is allowed.  Property theorems only.
+-/
 namespace C12
-theorem placeholder : True := trivial
+
+/-- The grammar of state keys a transaction with executor name `txExecer` (driver code name
+`realExecer`) may report in its receipt.  The key must be `mavl-<x>-…` and
+* lie in its own namespace (`x` = the executor name with the para-chain title stripped), or
+* (before ForkExecKey only) be one of the two historical exceptions, or
+* lie in *its own* deposit area inside any executor (`mavl-<x>-<y>-exec-<addr(txExecer)>:…`), or
+* be approved by the owning executor's friend rule — the owner being the driver `realExecer`
+  when the key lies in `realExecer`'s deposit area, and `x` otherwise. -/
+def AllowedSpec (cfg : Cfg) (execAddr : Bytes → Bytes) (friend : Bytes → Bytes → Bytes → Bool)
+    (key realExecer txExecer : Bytes) : Prop :=
+  ∃ x, OwnerOf key x ∧
+    ( x = getParaExec cfg txExecer
+    ∨ (cfg.forkExecKey = false ∧ getParaExec cfg txExecer = sManage ∧ x = sConfig)
+    ∨ (cfg.forkExecKey = false ∧ getParaExec cfg txExecer = sToken ∧ ∃ t, key = sCreateToken ++ t)
+    ∨ DepositOf key (execAddr txExecer)
+    ∨ (DepositOf key (execAddr realExecer) ∧ friend realExecer key txExecer = true)
+    ∨ (¬ DepositOf key (execAddr realExecer) ∧ friend x key txExecer = true))
+
+/-- **allow_iff_spec** — the code-shaped predicate (`isAllowKeyWrite`, index loops and all) accepts
+exactly the keys of the grammar, for every configuration (main chain / `user.p.x.` para chain,
+before / after ForkExecKey), every address function and every friend oracle. -/
+theorem allow_iff_spec (cfg : Cfg) (execAddr : Bytes → Bytes) (friend : Bytes → Bytes → Bytes → Bool)
+    (key realExecer txExecer : Bytes) :
+    isAllowKeyWrite cfg execAddr friend key realExecer txExecer = true ↔
+      AllowedSpec cfg execAddr friend key realExecer txExecer := by
+  unfold isAllowKeyWrite AllowedSpec
+  cases hf : findExecer key with
+  | error e =>
+    simp only [Bool.false_eq_true, false_iff]
+    rintro ⟨x, hx, _⟩
+    rw [findExecer_ok.2 hx] at hf; cases hf
+  | ok ke =>
+    have hke := findExecer_ok.1 hf
+    have huniq : ∀ x, OwnerOf key x → x = ke := by
+      intro x hx
+      have := findExecer_ok.2 hx
+      rw [hf] at this; injection this with this; exact this.symm
+    have hdep : ∀ a, getExecKey key = some a ↔ DepositOf key a := fun a => getExecKey_some
+    simp only
+    split
+    · rename_i h1
+      simp only [true_iff]
+      exact ⟨_, h1 ▸ hke, Or.inl rfl⟩
+    · rename_i h1
+      split
+      · rename_i h2
+        simp only [Bool.and_eq_true, Bool.not_eq_true', decide_eq_true_eq] at h2
+        simp only [true_iff]
+        exact ⟨ke, hke, Or.inr (Or.inl ⟨h2.1.1, h2.1.2, h2.2⟩)⟩
+      · rename_i h2
+        split
+        · rename_i h3
+          simp only [Bool.and_eq_true, Bool.not_eq_true', decide_eq_true_eq] at h3
+          simp only [true_iff]
+          exact ⟨ke, hke, Or.inr (Or.inr (Or.inl ⟨h3.1.1, h3.1.2, isPrefixOf_iff.1 h3.2⟩))⟩
+        · rename_i h3
+          have n2 : ¬ (cfg.forkExecKey = false ∧ getParaExec cfg txExecer = sManage ∧ ke = sConfig) := by
+            intro h; apply h2
+            simp only [Bool.and_eq_true, Bool.not_eq_true', decide_eq_true_eq]
+            exact ⟨⟨h.1, h.2.1⟩, h.2.2⟩
+          have n3 : ¬ (cfg.forkExecKey = false ∧ getParaExec cfg txExecer = sToken ∧ ∃ t, key = sCreateToken ++ t) := by
+            intro h; apply h3
+            simp only [Bool.and_eq_true, Bool.not_eq_true', decide_eq_true_eq]
+            exact ⟨⟨h.1, h.2.1⟩, isPrefixOf_iff.2 h.2.2⟩
+          split
+          · rename_i h4
+            simp only [true_iff]
+            exact ⟨ke, hke, Or.inr (Or.inr (Or.inr (Or.inl ((hdep _).1 h4))))⟩
+          · rename_i h4
+            have n4 : ¬ DepositOf key (execAddr txExecer) := fun h => h4 ((hdep _).2 h)
+            split
+            · rename_i h5
+              have d5 := (hdep _).1 h5
+              constructor
+              · intro hfr
+                exact ⟨ke, hke, Or.inr (Or.inr (Or.inr (Or.inr (Or.inl ⟨d5, hfr⟩))))⟩
+              · rintro ⟨x, hx, h⟩
+                have := huniq x hx; subst this
+                rcases h with h | h | h | h | h | h
+                · exact absurd h h1
+                · exact absurd h n2
+                · exact absurd h n3
+                · exact absurd h n4
+                · exact h.2
+                · exact absurd d5 h.1
+            · rename_i h5
+              have n5 : ¬ DepositOf key (execAddr realExecer) := fun h => h5 ((hdep _).2 h)
+              constructor
+              · intro hfr
+                exact ⟨ke, hke, Or.inr (Or.inr (Or.inr (Or.inr (Or.inr ⟨n5, hfr⟩))))⟩
+              · rintro ⟨x, hx, h⟩
+                have := huniq x hx; subst this
+                rcases h with h | h | h | h | h | h
+                · exact absurd h h1
+                · exact absurd h n2
+                · exact absurd h n3
+                · exact absurd h n4
+                · exact absurd h.1 n5
+                · exact h.2
+
 end C12
